@@ -16,6 +16,7 @@ import Hcl.Model.Lexer
 import Hcl.Model.Parser
 import Hcl.Model.ParserStmts
 import Hcl.Model.Io
+import Hcl.Model.Errors
 import Hcl.Spec.Locate
 import Hcl.Generated
 
@@ -612,6 +613,125 @@ def handleDiag (fields : List SExp) : String :=
     | none => false) && second
   s!"M {model} ;; S planted={if plantedShown then 1 else 0} builtin={if mentionsBuiltin then 1 else 0}"
 
+/-! ### Rendering of diagnostics (`Error::format_for_contents`) -/
+
+def hexDigitVal? (c : Char) : Option Nat :=
+  if '0' ≤ c && c ≤ '9' then some (c.toNat - 48)
+  else if 'a' ≤ c && c ≤ 'f' then some (c.toNat - 87)
+  else if 'A' ≤ c && c ≤ 'F' then some (c.toNat - 55)
+  else none
+
+def hexPairs? : List Char → Option Bytes
+  | [] => some []
+  | [_] => none
+  | a :: b :: rest => do
+    let x ← hexDigitVal? a
+    let y ← hexDigitVal? b
+    let r ← hexPairs? rest
+    pure ((x * 16 + y) :: r)
+
+/-- a string as the harness sends it: the letter `x`, then its UTF-8 bytes in hexadecimal -/
+def hexAtom? : SExp → Option Bytes
+  | .atom s => match s.toList with
+    | 'x' :: rest => hexPairs? rest
+    | _ => none
+  | _ => none
+
+def spanOf? : SExp → Option (Nat × Nat)
+  | .list [a, b] => do
+    let x ← a.nat?
+    let y ← b.nat?
+    pure (x, y)
+  | _ => none
+
+def optNameOf? : SExp → Option (Option Bytes)
+  | .list [.atom "none"] => some none
+  | .list [.atom "some", a] => (hexAtom? a).map some
+  | _ => none
+
+def namesOf? : SExp → Option (List Bytes)
+  | .list l => l.mapM hexAtom?
+  | _ => none
+
+/-- the `Error` value as `verif_hooks::error_sexp` writes it -/
+partial def decodeErr (e : SExp) : Option Errors.ErrV :=
+  match e.tagged? with
+  | some ("MultipleErrors", items) => (items.mapM decodeErr).map .multiple
+  | some ("MismatchedMuxWidths", [.list (.atom "options" :: os), .list (.atom "widths" :: ws)]) => do
+    let o ← os.mapM spanOf?
+    let w ← ws.mapM widthOf?
+    pure (.mismatchedMuxWidths o w)
+  | some ("MismatchedExprWidths", [a, wa, b, wb]) => do
+    pure (.mismatchedExprWidths (← spanOf? a) (← widthOf? wa) (← spanOf? b) (← widthOf? wb))
+  | some ("MismatchedWireWidths", [n, wa, b, wb]) => do
+    pure (.mismatchedWireWidths (← hexAtom? n) (← widthOf? wa) (← spanOf? b) (← widthOf? wb))
+  | some ("MismatchedRegisterDefaultWidths", [bank, reg, rw, d, ew]) => do
+    pure (.mismatchedRegisterDefaultWidths (← hexAtom? bank) (← hexAtom? reg) (← widthOf? rw) (← spanOf? d) (← widthOf? ew))
+  | some ("DuplicateRegister", [bank, reg]) => do pure (.duplicateRegister (← hexAtom? bank) (← hexAtom? reg))
+  | some ("RuntimeMismatchedWidths", []) => some .runtimeMismatchedWidths
+  | some ("DivideByZero", []) => some .divideByZero
+  | some ("UndeclaredWireAssigned", [n, s, c]) => do pure (.undeclaredWireAssigned (← hexAtom? n) (← spanOf? s) (← optNameOf? c))
+  | some ("UndeclaredWireRead", [n, s, c]) => do pure (.undeclaredWireRead (← hexAtom? n) (← spanOf? s) (← optNameOf? c))
+  | some ("NonConstantWireRead", [n, s]) => do pure (.nonConstantWireRead (← hexAtom? n) (← spanOf? s))
+  | some ("UnsetWire", [n, s]) => do pure (.unsetWire (← hexAtom? n) (← spanOf? s))
+  | some ("UnsetBuiltinWire", [n]) => do pure (.unsetBuiltinWire (← hexAtom? n))
+  | some ("UnsetUndeclaredWire", [n]) => do pure (.unsetUndeclaredWire (← hexAtom? n))
+  | some ("UnsetRegisterInputWire", [n, s]) => do pure (.unsetRegisterInputWire (← hexAtom? n) (← spanOf? s))
+  | some ("RedeclaredWire", [n, a, b]) => do pure (.redeclaredWire (← hexAtom? n) (← spanOf? a) (← spanOf? b))
+  | some ("DoubleAssignedWire", [n, a, b]) => do pure (.doubleAssignedWire (← hexAtom? n) (← spanOf? a) (← spanOf? b))
+  | some ("DoubleAssignedRegisterWire", [n, a, b]) => do pure (.doubleAssignedRegisterWire (← hexAtom? n) (← spanOf? a) (← spanOf? b))
+  | some ("DoubleDeclaredRegisterOutWire", [n, a, b]) => do pure (.doubleDeclaredRegisterOutWire (← hexAtom? n) (← spanOf? a) (← spanOf? b))
+  | some ("DoubleAssignedFixedOutWire", [n, s, f]) => do pure (.doubleAssignedFixedOutWire (← hexAtom? n) (← spanOf? s) (← hexAtom? f))
+  | some ("AssignedConstant", [n, a, b]) => do pure (.assignedConstant (← hexAtom? n) (← spanOf? a) (← spanOf? b))
+  | some ("RedeclaredBuiltinWire", [n, s, f]) => do pure (.redeclaredBuiltinWire (← hexAtom? n) (← spanOf? s) (← hexAtom? f))
+  | some ("PartialFixedInput", [n, f, m]) => do pure (.partialFixedInput (← hexAtom? n) (← namesOf? f) (← namesOf? m))
+  | some ("WireLoop", [ns]) => do pure (.wireLoop (← namesOf? ns))
+  | some ("InvalidWireWidth", [s]) => do pure (.invalidWireWidth (← spanOf? s))
+  | some ("InvalidRegisterBankName", [n, s]) => do pure (.invalidRegisterBankName (← hexAtom? n) (← spanOf? s))
+  | some ("InvalidBitIndex", [s, i]) => do pure (.invalidBitIndex (← spanOf? s) (← i.nat?))
+  | some ("NonBooleanWidth", [s]) => do pure (.nonBooleanWidth (← spanOf? s))
+  | some ("NoBitWidth", [s]) => do pure (.noBitWidth (← spanOf? s))
+  | some ("MisorderedBitIndexes", [s]) => do pure (.misorderedBitIndexes (← spanOf? s))
+  | some ("InvalidConstant", [s]) => do pure (.invalidConstant (← spanOf? s))
+  | some ("WireTooWide", [s]) => do pure (.wireTooWide (← spanOf? s))
+  | some ("ExpectedStatementFoundExpr", [s]) => do pure (.expectedStatementFoundExpr (← spanOf? s))
+  | some ("UnterminatedComment", [l]) => do pure (.unterminatedComment (← l.nat?))
+  | some ("LexicalError", [l]) => do pure (.lexicalError (← l.nat?))
+  | some ("InternalParserErrorNear", [s, i]) => do pure (.internalParserErrorNear (← spanOf? s) (← hexAtom? i))
+  | some ("MissingWireWidth", [s]) => do pure (.missingWireWidth (← spanOf? s))
+  | some ("WireAssignedInDeclaration", [s]) => do pure (.wireAssignedInDeclaration (← spanOf? s))
+  | some ("MissingRegisterWidth", [s]) => do pure (.missingRegisterWidth (← spanOf? s))
+  | some ("AddedConstWidth", [s]) => do pure (.addedConstWidth (← spanOf? s))
+  | some ("MissingAssignmentMux", [s]) => do pure (.missingAssignmentMux (← spanOf? s))
+  | some ("RegisterDeclaredWithWire", [s]) => do pure (.registerDeclaredWithWire (← spanOf? s))
+  | some ("NoMuxDefaultOption", [s]) => do pure (.noMuxDefaultOption (← spanOf? s))
+  | some ("MultipleMuxDefaultOption", [s]) => do pure (.multipleMuxDefaultOption (← spanOf? s))
+  | some ("UnreachableOptions", [s]) => do pure (.unreachableOptions (← spanOf? s))
+  | some ("EmptyFile", []) => some .emptyFile
+  | some ("UnparseableLine", [l]) => do pure (.unparseableLine (← hexAtom? l))
+  | some ("InvalidToken", [l]) => do pure (.invalidToken (← l.nat?))
+  | some ("UnrecognizedToken", [s, ex]) => do pure (.unrecognizedToken (← spanOf? s) (← namesOf? ex))
+  | some ("ExtraToken", [s]) => do pure (.extraToken (← spanOf? s))
+  | some ("IoError", [d]) => do pure (.ioError (← hexAtom? d))
+  | some ("FmtError", [d]) => do pure (.fmtError (← hexAtom? d))
+  | _ => none
+
+/-- `(render (how ..) (prelen N) (user xHEX) (name xHEX) (error E))`: the bytes the model of `format_for_contents` writes for
+    the error value `E` against the file (real preamble + user text), in hexadecimal; `-` for none; `PANIC` where a slice
+    or an index of the real code is out of range -/
+def handleRender (fields : List SExp) : String :=
+  let pre : Bytes := Generated.preambleBytes
+  if natField fields "prelen" 0 ≠ pre.length then "M preamble-length-differs ;; S -" else
+  match field fields "user", field fields "name", field fields "error" with
+  | [u], [n], [e] =>
+    (match hexAtom? u, hexAtom? n, decodeErr e with
+     | some user, some name, some v =>
+       (match Errors.render (Io.newFromData pre user name) v with
+        | .ok out => "M " ++ (if out.isEmpty then "-" else hexOfBytes out) ++ " ;; S -"
+        | .error _ => "M PANIC ;; S -")
+     | _, _, _ => "bad-request undecodable-render")
+  | _, _, _ => "bad-request render-fields"
+
 def handleLex (fields : List SExp) : String :=
   let cls := lexCls (field fields "cls")
   let text : List Char := (field fields "text").filterMap fun e => e.nat?.map Char.ofNat
@@ -648,6 +768,7 @@ def handle (line : String) : String :=
        | _ => "bad-request anytext-without-inner")
     | some ("region", fields) => handleRegion fields
     | some ("diag", fields) => handleDiag fields
+    | some ("render", fields) => handleRender fields
     | some ("parse", fields) => handleParse fields
     | some ("trace", args) => handleTrace args
     | some (t, _) => s!"bad-request unknown-tag {t}"
